@@ -134,7 +134,16 @@ func TestRAC_C15(t *testing.T) {
 			res.sample(map[string]interface{}{"random_history": h.String()})
 		}
 	}
-	res.Rule = fmt.Sprintf("every history with <= %d leaves / <= %d blocks (+%d seeded random histories of up to 12 blocks), recorded through AddBlockSummary with the deletion targets a prover emits (spec canonical proof targets); every memory limit from 1 to (number of schedulable leaves + 1) and the unbounded limit math.MaxInt; oracle computed from the history alone (insertion slots, add block, delete block). distinct = (history, limit) pairs", maxLeaves, maxBlocks, nr)
+	// a history with more blocks than fit in 16 bits: a leaf added in block 65538 and deleted in the next one
+	{
+		long := racHistory{{Adds: 2}}
+		for i := 0; i < 65537; i++ {
+			long = append(long, racBlock{})
+		}
+		long = append(long, racBlock{Adds: 1}, racBlock{Dels: []uint64{2}}, racBlock{Dels: []uint64{0}})
+		checkSchedule(res, long)
+	}
+	res.Rule = fmt.Sprintf("every history with <= %d leaves / <= %d blocks (+%d seeded random histories of up to 12 blocks), (+ one history of 65 541 blocks, most of them empty, with a leaf added and deleted beyond block 65 536) recorded through AddBlockSummary with the deletion targets a prover emits (spec canonical proof targets); every memory limit from 1 to (number of schedulable leaves + 1) and the unbounded limit math.MaxInt; oracle computed from the history alone (insertion slots, add block, delete block). distinct = (history, limit) pairs", maxLeaves, maxBlocks, nr)
 	res.Scope = fmt.Sprintf("histories=%d", n)
 	res.write(t)
 }
